@@ -8,6 +8,7 @@ import (
 	"encoding/json"
 	"fmt"
 	"os"
+	"os/exec"
 	"path/filepath"
 	"regexp"
 	"sort"
@@ -166,6 +167,35 @@ func (r *Report) Import(path string) (map[string]interface{}, error) {
 		r.Add(v)
 	}
 	return x.Coverage, nil
+}
+
+// ConcStage runs the concurrent stage of a composed check: the interleaving explorer (engines/concmc,
+// binary in VERIF_CONC_BIN) for property prop as a subprocess; its violations are merged into r and a
+// summary of its coverage is returned.  ran == false: no binary configured.  err != nil: the stage could
+// not run (the check has no verdict).
+func (r *Report) ConcStage(prop string) (summary map[string]interface{}, ran bool, err error) {
+	bin := os.Getenv("VERIF_CONC_BIN")
+	if bin == "" {
+		return nil, false, nil
+	}
+	dir := os.Getenv("VERIF_SCRATCH")
+	if dir == "" {
+		dir = os.TempDir()
+	}
+	tmp := filepath.Join(dir, fmt.Sprintf("verif-sub-%d.json", os.Getpid()))
+	cmd := exec.Command(bin, prop)
+	cmd.Env = append(os.Environ(), "VERIF_SUBREPORT="+tmp)
+	cmd.Stderr = os.Stderr
+	if e := cmd.Run(); e != nil {
+		return nil, true, fmt.Errorf("the concurrent stage of %s failed to run: %v", prop, e)
+	}
+	sub, e := r.Import(tmp)
+	os.Remove(tmp)
+	if e != nil {
+		return nil, true, fmt.Errorf("cannot read the concurrent stage's report: %v", e)
+	}
+	return map[string]interface{}{"engine": "concmc", "schedules": sub["evaluations"], "preemption_bound": sub["preemption_bound"], "generated_pairs": sub["generated_pairs"],
+		"per_scenario": sub["per_scenario"], "race_pass_runs": sub["race_pass_runs"], "race_reports": sub["race_reports"], "exhaustive": sub["exhaustive"]}, true, nil
 }
 
 // Finish writes the evidence file, prints the interface lines and returns the exit code.
